@@ -32,16 +32,167 @@ RULE = ('directed programs (each statement kind, precedence ties, queued callbac
         'assign/update/trigger/batch, 1-8 top-level statements; every callback invocation, its events, the values it saw and every '
         'statement (flags at entry, registered watchers) are logged as a tree and compared with the model; the oracle checks every '
         'assignment node. non-trivial = at least one callback ran; distinct = distinct canonical case')
-COVERAGE_TARGETS = ['call:direct', 'call:flush', 'stmt:set', 'stmt:set:batched', 'stmt:update', 'stmt:trigger', 'stmt:batch',
+COVERAGE_TARGETS = ['equal:plain', 'equal:other', 'equal:dict', 'equal:set', 'equal:is_equal=True,py_eq=True',
+                    'equal:is_equal=False,py_eq=True', 'equal:is_equal=False,py_eq=False', 'call:direct', 'call:flush', 'stmt:set', 'stmt:set:batched', 'stmt:update', 'stmt:trigger', 'stmt:batch',
                     'stmt:discard', 'stmt:set:raised', 'top:ValueError']
 PROP = 'C03'
 FAULTS = False
 
-run_impl = D.run_impl
-compare = D.compare
-tags = D.tags
-nontrivial = D.nontrivial
-shrink = D.shrink
+import datetime as _dt
+import math as _math
+
+
+def _py(v, others):
+    t = v['t']
+    if t == 'none':
+        return None
+    if t == 'num':
+        return {'int': int, 'float': float, 'bool': bool}[v.get('py', 'int')](v['v'])
+    if t == 'nan':
+        return float('nan')      # a fresh object: container equality short-cuts on identity
+    if t == 'str':
+        return v['v']
+    if t == 'bytes':
+        return v['v'].encode()
+    if t == 'date':
+        return _dt.date.fromordinal(730000 + v['v'])
+    if t == 'datetime':
+        return _dt.datetime(2000, 1, 1) + _dt.timedelta(microseconds=v['v'])
+    if t == 'list':
+        return [_py(x, others) for x in v['v']]
+    if t == 'tuple':
+        return tuple(_py(x, others) for x in v['v'])
+    if t == 'set':
+        return set(_py(x, others) for x in v['v'])
+    if t == 'dict':
+        return {k: _py(x, others) for k, x in v['v']}
+    if t == 'other':
+        return others.setdefault(v['id'], object())
+    raise RuntimeError(t)
+
+
+def _gen_pv(rng, depth, plain_only=False):
+    kinds = ['none', 'num', 'num', 'num', 'str', 'bytes', 'date', 'datetime', 'list', 'tuple', 'dict']
+    if not plain_only:
+        kinds += ['nan', 'set', 'other']
+    if depth <= 0:
+        kinds = [k for k in kinds if k not in ('list', 'tuple', 'dict', 'set')]
+    t = rng.choice(kinds)
+    if t == 'num':
+        val = rng.choice([0, 1, 1, 2, 3])
+        return {'t': 'num', 'v': val, 'py': rng.choice(['int', 'float', 'bool'] if val in (0, 1) else ['int', 'float'])}
+    if t == 'str':
+        return {'t': 'str', 'v': rng.choice(['', 'a', 'b'])}
+    if t == 'bytes':
+        return {'t': 'bytes', 'v': rng.choice(['', 'a'])}
+    if t in ('date', 'datetime'):
+        return {'t': t, 'v': rng.choice([0, 1])}
+    if t in ('list', 'tuple'):
+        return {'t': t, 'v': [_gen_pv(rng, depth - 1, plain_only) for _ in range(rng.randint(0, 3))]}
+    if t == 'set':
+        # integer elements only: their iteration order does not depend on the hash seed
+        elems = rng.sample([0, 1, 8, 16, 3], rng.randint(0, 3))
+        order = list(set(elems)) if rng.random() < 0.5 else list({x: 0 for x in elems})  # informational
+        s = set()
+        for x in elems:
+            s.add(x)
+        return {'t': 'set', 'v': [{'t': 'num', 'v': x, 'py': 'int'} for x in s], 'built': elems}
+    if t == 'dict':
+        ks = rng.sample(['a', 'b', 'c', 'k'], rng.randint(0, 3))
+        return {'t': 'dict', 'v': [[k, rng.choice([{'t': 'none'}, _gen_pv(rng, depth - 1, plain_only)])] for k in ks]}
+    if t == 'other':
+        return {'t': 'other', 'id': rng.choice([1, 2])}
+    return {'t': t}
+
+
+def _mutate(rng, v):
+    """a value close to v: equal copy, reordered dict, one leaf changed, different key set …"""
+    import copy
+    w = copy.deepcopy(v)
+    r = rng.random()
+    if r < 0.45:
+        return w
+    if w['t'] == 'dict' and w['v']:
+        if r < 0.6:
+            rng.shuffle(w['v'])
+        elif r < 0.8:
+            w['v'][rng.randrange(len(w['v']))][0] = rng.choice(['a', 'b', 'z'])
+            if len({k for k, _ in w['v']}) != len(w['v']):
+                return copy.deepcopy(v)
+        else:
+            i = rng.randrange(len(w['v']))
+            w['v'][i][1] = _mutate(rng, w['v'][i][1])
+        return w
+    if w['t'] in ('list', 'tuple') and w['v']:
+        i = rng.randrange(len(w['v']))
+        if r < 0.7:
+            w['v'][i] = _mutate(rng, w['v'][i])
+        elif r < 0.85:
+            w['v'].pop(i)
+        else:
+            w['t'] = 'list' if w['t'] == 'tuple' else 'tuple'
+        return w
+    if w['t'] == 'num':
+        if r < 0.7:
+            w['py'] = rng.choice(['int', 'float'] + (['bool'] if w['v'] in (0, 1) else []))
+        else:
+            w['v'] += 1
+            w['py'] = 'int'
+        return w
+    if w['t'] == 'set':
+        # same elements inserted in another order may iterate differently
+        elems = list(v.get('built', []))
+        rng.shuffle(elems)
+        s = set()
+        for x in reversed(elems):
+            s.add(x)
+        return {'t': 'set', 'v': [{'t': 'num', 'v': x, 'py': 'int'} for x in s], 'built': elems}
+    if w['t'] == 'date':
+        return {'t': 'datetime', 'v': 0} if r < 0.7 else {'t': 'date', 'v': w['v'] + 1}
+    return _gen_pv(rng, 1)
+
+
+def run_impl(case):
+    if case.get('kind') == 'equal':
+        import param  # noqa: F401
+        from param.parameterized import Comparator
+        others = {}
+        a, b = _py(case['a'], others), _py(case['b'], others)
+        try:
+            return {'is_equal': bool(Comparator.is_equal(a, b)), 'py_eq': bool(a == b)}
+        except Exception as e:
+            return {'crash': f'{type(e).__name__}: {e}'}
+    return D.run_impl(case)
+
+
+def compare(impl, model):
+    if 'is_equal' in impl:
+        from ..run import first_diff
+        return first_diff(impl, model)
+    return D.compare(impl, model)
+
+
+def tags(case, impl):
+    if case.get('kind') == 'equal':
+        return ['equal:' + case['a']['t'], 'equal:is_equal=%s,py_eq=%s' % (impl.get('is_equal'), impl.get('py_eq'))]
+    return D.tags(case, impl)
+
+
+def nontrivial(case, impl, resp):
+    if case.get('kind') == 'equal':
+        return case['a']['t'] in ('list', 'tuple', 'dict', 'set') or case['a'] != case['b']
+    return D.nontrivial(case, impl, resp)
+
+
+def shrink(case):
+    if case.get('kind') == 'equal':
+        for side in ('a', 'b'):
+            v = case[side]
+            if v['t'] in ('list', 'tuple', 'set', 'dict') and v['v']:
+                for i in range(len(v['v'])):
+                    yield dict(case, **{side: dict(v, v=v['v'][:i] + v['v'][i + 1:])})
+        return
+    yield from D.shrink(case)
 
 
 def cases(rng, tier, worker, nworkers):
@@ -51,6 +202,10 @@ def cases(rng, tier, worker, nworkers):
     n = 1200 if tier == 'quick' else 30000 // nworkers
     for i in range(n):
         yield D.gen_case(rng, PROP, faults=FAULTS or (i % 5 == 0), size=8 if i % 3 else 14)
+    # the changes-only test itself: Comparator.is_equal against the model, Python == against the spec
+    for i in range(2500 if tier == 'quick' else 60000 // nworkers):
+        a = _gen_pv(rng, 2, plain_only=(i % 3 == 0))
+        yield {'prop': 'C03', 'kind': 'equal', 'a': a, 'b': _mutate(rng, a)}
 
 
 def classify(case, impl, fail):
